@@ -44,6 +44,9 @@ class DiagDataDictionarySpec:
     sdgs: List[SpecialDataGroup]
 
     def __post_init__(self) -> None:
+        self._update_all_data_object_properties()
+
+    def _update_all_data_object_properties(self) -> None:
         self._all_data_object_properties: NamedItemList[DopBase] = NamedItemList(
             chain(
                 self.dtc_dops,
@@ -189,6 +192,12 @@ class DiagDataDictionarySpec:
         return odxlinks
 
     def _resolve_odxlinks(self, odxlinks: OdxLinkDatabase) -> None:
+        # the lists of data objects may have been modified since
+        # this object was created (e.g. before the database is
+        # refreshed again), so the list of all data object
+        # properties needs to be recomputed
+        self._update_all_data_object_properties()
+
         if self.admin_data is not None:
             self.admin_data._resolve_odxlinks(odxlinks)
         for dtc_dop in self.dtc_dops:
